@@ -19,7 +19,7 @@ def sh(cmd, cwd=None, env=None, timeout=600):
     return res.returncode, (res.stdout + res.stderr)
 
 def main():
-    out_dir, prop, n = sys.argv[1], sys.argv[2], sys.argv[3]
+    out_dir, prop, n = os.path.abspath(sys.argv[1]), sys.argv[2], sys.argv[3]
     keep = sys.argv[sys.argv.index("--keep-as") + 1] if "--keep-as" in sys.argv else None
     diff = os.path.join(out_dir, f"change{n}.diff")
     demo = os.path.join(out_dir, f"demo{n}.py")
